@@ -99,6 +99,9 @@ func run(c *vf.Ctx) {
 		"for coded counts below the tier's full-grid limit (quick 128, thorough 224), above it every coded count with a reduced (keyLen,passLen) set " +
 		"(rotating with the count octet; a multi-context key for every count octet below 192, every fourth one in 192..223 and one or two per hash in 224..255, which hash up to 65 MB per context: one key size, one passphrase); " +
 		"direct functions on the same grid plus raw counts k*unit-1, k*unit, k*unit+1; Serialize for S2KCount at v-1,v,v+1 of every representable v x 7 hashes; " +
+		"hardening: (A/B) Parse's input buffer is wiped after Parse; every derivation gets the passphrase (and, for the direct functions, the salt) as private copies in sentinel-framed buffers (spare capacity or cap == len) that must stay intact and are wiped afterwards, writes into a destination pre-filled with old data and framed by guard bytes, and the direct functions get a hash object that the caller has already written to on every second point; " +
+		"(C/E) passphrase lengths 2^k+{-9,-8,-7,-1,0,1} for k=7..16 x 3 types x 7 hashes (iterated: count octet 0 or 96) and 2^k+{-8,1} for k=17..22 (type rotating), 8+passLen around the counts 1024 and 65536; key lengths {2hLen,3hLen,3hLen+1,4hLen+1,255,256,257} (up to 17 hash contexts) x 4 specifier kinds x 7 hashes through Parse and direct; " +
+		"(A/D) every ordered pair of 21 specifier kinds parsed one after the other, buffers wiped, the two functions used alternately A,B,A,B; " +
 		"non-trivial = distinct (type,hash,count,keyLen,passLen) whose key needs >= 2 hash contexts or whose iterated stream ends inside a salt||passphrase unit; " +
 		"oracle = verif/ref/s2kref (RFC 4880 3.7.1 model, validated against libgcrypt gcry_kdf_derive and python hashlib)")
 	c.Assume("crypto/md5, sha1, sha256, sha512 are correct hashes (both sides use them); RIPEMD-160 comes from verif/ref/rmd160ref for messages up to 128 KiB and from x/crypto/ripemd160 beyond (RIPEMD-160 itself is property C-ripemd's subject)")
@@ -163,6 +166,13 @@ func run(c *vf.Ctx) {
 	serializeGrid(c)
 	c.Set("phase_s_serialize", time.Since(t0).Seconds())
 	parseRejects(c)
+	t0 = time.Now()
+	longPassphrases(c)
+	c.Set("phase_s_long_passphrases", time.Since(t0).Seconds())
+	t0 = time.Now()
+	moreContexts(c)
+	interleavedFunctions(c)
+	c.Set("phase_s_contexts_and_interleaving", time.Since(t0).Seconds())
 }
 
 func specFor(c *vf.Ctx, it item) s2kref.Spec {
@@ -176,7 +186,8 @@ func runItem(c *vf.Ctx, idx int, it item) {
 	sp := specFor(c, it)
 	enc := sp.Encode()
 	tail := []byte{0xA5, 0x5A, 0xC3}
-	rd := bytes.NewReader(append(append([]byte{}, enc...), tail...))
+	spec := append(append([]byte{}, enc...), tail...)
+	rd := bytes.NewReader(spec)
 	var f func(out, in []byte)
 	var err error
 	where := map[string]any{"type": it.typ, "hash": h.alg.Name, "coded_count": it.coded, "specifier": fmt.Sprintf("%x", enc)}
@@ -191,17 +202,33 @@ func runItem(c *vf.Ctx, idx int, it item) {
 	if rd.Len() != len(tail) {
 		c.Violation(fmt.Sprintf("Parse consumes a wrong number of octets (type %d)", it.typ), map[string]any{"at": where, "left": rd.Len(), "want_left": len(tail)})
 	}
+	// hardening A: the caller reuses its packet buffer once Parse has returned
+	rd.Reset(nil)
+	for i := range spec {
+		spec[i] ^= 0xFF
+	}
 	typeName := map[byte]string{0: "simple", 1: "salted", 3: "iterated"}[it.typ]
 	for _, cb := range it.combos {
 		pass := c.Bytes("pass", it.hi*1000+it.coded, cb.pl)
 		passCopy := append([]byte{}, pass...)
 		want := s2kref.Derive(sp, pass, cb.kl)
-		got := make([]byte, cb.kl)
+		// hardening A/B: passphrase as a private sentinel-framed copy (spare capacity or cap == len,
+		// alternating), wiped after the call; destination pre-filled with old data, guard bytes behind it
+		fpass, pass := guard(passCopy, (cb.kl+cb.pl)%2 == 0)
+		fgot, got := dest(cb.kl)
 		if p, v, st := vf.Protect(func() { f(got, pass) }); p {
 			c.Violation("derivation function panics", map[string]any{"at": where, "keyLen": cb.kl, "passLen": cb.pl, "panic": fmt.Sprint(v), "stack": st})
 			continue
 		}
 		c.Eval(1)
+		if !intact(fpass, passCopy) {
+			c.Violation("derivation writes to the caller's passphrase buffer or its spare capacity", where)
+		}
+		if !destIntact(fgot, cb.kl) {
+			c.Violation("derivation writes outside the destination slice", where)
+		}
+		wipe(fpass)
+		pass = passCopy
 		ctxs := (cb.kl + h.alg.Len - 1) / h.alg.Len
 		unit := 8 + cb.pl
 		partial := it.typ == s2kref.Iterated && s2kref.Count(byte(it.coded))%unit != 0 && s2kref.Count(byte(it.coded)) > unit
@@ -217,22 +244,30 @@ func runItem(c *vf.Ctx, idx int, it item) {
 			c.Violation("derivation modifies the passphrase", where)
 		}
 		if it.direct {
-			got2 := make([]byte, cb.kl)
+			fgot2, got2 := dest(cb.kl)
 			hh := h.real.New()
+			if (cb.kl+cb.pl+it.coded)%2 == 0 {
+				hh.Write([]byte("hash object already used by the caller")) // hardening B/D: not a fresh hash
+			}
+			fp2, gp2 := guard(pass, (cb.kl+it.coded)%2 == 0)
+			fs2, gs2 := guard(sp.Salt[:], (cb.kl+it.coded)%2 == 1 || cb.pl == 8)
 			if p, v, st := vf.Protect(func() {
 				switch it.typ {
 				case s2kref.Simple:
-					s2k.Simple(got2, hh, pass)
+					s2k.Simple(got2, hh, gp2)
 				case s2kref.Salted:
-					s2k.Salted(got2, hh, pass, sp.Salt[:])
+					s2k.Salted(got2, hh, gp2, gs2)
 				case s2kref.Iterated:
-					s2k.Iterated(got2, hh, pass, sp.Salt[:], s2kref.Count(byte(it.coded)))
+					s2k.Iterated(got2, hh, gp2, gs2, s2kref.Count(byte(it.coded)))
 				}
 			}); p {
 				c.Violation("direct function panics", map[string]any{"at": where, "panic": fmt.Sprint(v), "stack": st})
 				continue
 			}
 			c.Eval(1)
+			if !intact(fp2, pass) || !intact(fs2, sp.Salt[:]) || !destIntact(fgot2, cb.kl) {
+				c.Violation("direct function writes to the caller's passphrase/salt buffer, its spare capacity, or outside the destination", where)
+			}
 			if !bytes.Equal(got2, want) {
 				c.Violation(fmt.Sprintf("direct %s != RFC 4880 key (contexts=%d)", typeName, min(ctxs, 3)),
 					map[string]any{"at": where, "keyLen": cb.kl, "passLen": cb.pl, "got": fmt.Sprintf("%x", got2), "want": fmt.Sprintf("%x", want)})
@@ -500,4 +535,251 @@ func parseRejects(c *vf.Ctx) {
 			try("", append([]byte{typ, byte(id)}, make([]byte, 12)...))
 		}
 	}
+}
+
+// ---------------------------------------------------------------- hardening pass
+
+// guard places a private copy of b in a frame: 8 sentinel bytes in front, 24 behind; with spare the
+// returned slice's capacity extends over the trailing sentinels, otherwise cap == len.
+func guard(b []byte, spare bool) (frame, s []byte) {
+	frame = bytes.Repeat([]byte{0xA5}, 8+len(b)+24)
+	copy(frame[8:], b)
+	if spare {
+		return frame, frame[8 : 8+len(b)]
+	}
+	return frame, frame[8 : 8+len(b) : 8+len(b)]
+}
+
+func intact(frame, orig []byte) bool {
+	for i, v := range frame {
+		if i >= 8 && i < 8+len(orig) {
+			if v != orig[i-8] {
+				return false
+			}
+		} else if v != 0xA5 {
+			return false
+		}
+	}
+	return true
+}
+
+func wipe(frame []byte) {
+	for i := range frame {
+		frame[i] ^= 0xFF
+	}
+}
+
+// dest returns a destination of n bytes that holds old data (0xC3) with 16 guard bytes on each side.
+func dest(n int) (frame, out []byte) {
+	frame = bytes.Repeat([]byte{0xC3}, 16+n+16)
+	return frame, frame[16 : 16+n]
+}
+
+func destIntact(frame []byte, n int) bool {
+	for i, v := range frame {
+		if (i < 16 || i >= 16+n) && v != 0xC3 {
+			return false
+		}
+	}
+	return true
+}
+
+// longPassphrases (C/E): passphrase lengths 2^k + d for k = 7..22 - d = -8 puts the end of
+// salt||passphrase on a power of two - for every type x hash, through Parse. For the iterated type
+// the count octets 0 (1024) and 96 (65536) make salt||passphrase shorter than, equal to and longer
+// than the count (RFC 4880 3.7.1.3: the whole unit is hashed even if that exceeds the count).
+func longPassphrases(c *vf.Ctx) {
+	type job struct {
+		hi    int
+		typ   byte
+		coded int
+		pl    int
+	}
+	var jobs []job
+	for hi := range hashes {
+		for k := 7; k <= 22; k++ {
+			types := []job{{hi, s2kref.Simple, 0, 0}, {hi, s2kref.Salted, 0, 0}, {hi, s2kref.Iterated, []int{0, 96}[k%2], 0}}
+			if k > 16 {
+				// above 128 KiB: two deltas, one type each (rotating with k and the hash)
+				for x, d := range []int{-8, 1} {
+					j := types[(k+hi+x)%3]
+					j.pl = 1<<uint(k) + d
+					jobs = append(jobs, j)
+				}
+				continue
+			}
+			for _, d := range []int{-9, -8, -7, -1, 0, 1} {
+				for _, j := range types {
+					j.pl = 1<<uint(k) + d
+					jobs = append(jobs, j)
+				}
+			}
+		}
+		for _, pl := range []int{1014, 1015, 1016, 1017, 1018} { // 8 + pl around count 1024
+			jobs = append(jobs, job{hi, s2kref.Iterated, 0, pl})
+		}
+		for _, pl := range []int{65527, 65528, 65529} { // 8 + pl around count 65536
+			jobs = append(jobs, job{hi, s2kref.Iterated, 96, pl})
+		}
+	}
+	src := vf.DetBytes(fmt.Sprintf("%d|s2k-long-pass", c.Seed), 1<<22+64)
+	c.ParallelFor(len(jobs), func(i int) {
+		j := jobs[i]
+		h := hashes[j.hi]
+		it := item{hi: j.hi, typ: j.typ, coded: j.coded}
+		sp := specFor(c, it)
+		pass := src[i%5 : i%5+j.pl]
+		kl := h.alg.Len + 1
+		where := map[string]any{"type": j.typ, "hash": h.alg.Name, "coded_count": j.coded, "passLen": j.pl, "keyLen": kl}
+		var f func(out, in []byte)
+		var err error
+		fgot, got := dest(kl)
+		fpass, gpass := guard(pass, i%2 == 0)
+		if p, v, st := vf.Protect(func() {
+			if f, err = s2k.Parse(bytes.NewReader(sp.Encode())); err == nil {
+				f(got, gpass)
+			}
+		}); p {
+			c.Violation("derivation function panics on a long passphrase", map[string]any{"at": where, "panic": fmt.Sprint(v), "stack": st})
+			return
+		}
+		c.Eval(1)
+		if err != nil {
+			c.Violation(fmt.Sprintf("Parse rejects a valid specifier (type %d)", j.typ), where)
+			return
+		}
+		if !intact(fpass, pass) || !destIntact(fgot, kl) {
+			c.Violation("derivation writes to the caller's passphrase buffer, its spare capacity, or outside the destination", where)
+		}
+		if want := s2kref.Derive(sp, pass, kl); !bytes.Equal(got, want) {
+			where["got"], where["want"] = fmt.Sprintf("%x", got), fmt.Sprintf("%x", want)
+			rel := "longer than"
+			if j.typ != s2kref.Iterated {
+				rel = "n/a"
+			} else if 8+j.pl <= s2kref.Count(byte(j.coded)) {
+				rel = "at most"
+			}
+			c.Violation(fmt.Sprintf("Parse+derive != RFC 4880 key for a long passphrase (type %d, salt||passphrase %s the count)", j.typ, rel), where)
+		}
+		c.Nontrivial(fmt.Sprintf("longpass/%d/%s/%d/%d", j.typ, h.alg.Name, j.coded, j.pl))
+	})
+	c.Set("long_passphrase_points", len(jobs))
+}
+
+// moreContexts (E): key lengths that need 3, 4 and up to 17 hash contexts (context i is preloaded
+// with i zero octets) and lie on both sides of 256: {2hLen, 3hLen, 3hLen+1, 4hLen+1, 255, 256, 257}
+// for every type x hash, through Parse and the direct function, small counts.
+func moreContexts(c *vf.Ctx) {
+	type job struct {
+		hi    int
+		typ   byte
+		coded int
+		kl    int
+	}
+	var jobs []job
+	for hi, h := range hashes {
+		L := h.alg.Len
+		for _, kl := range []int{2 * L, 3 * L, 3*L + 1, 4*L + 1, 255, 256, 257} {
+			jobs = append(jobs, job{hi, s2kref.Simple, 0, kl}, job{hi, s2kref.Salted, 0, kl}, job{hi, s2kref.Iterated, 0, kl}, job{hi, s2kref.Iterated, 37, kl})
+		}
+	}
+	c.ParallelFor(len(jobs), func(i int) {
+		j := jobs[i]
+		h := hashes[j.hi]
+		sp := specFor(c, item{hi: j.hi, typ: j.typ, coded: j.coded})
+		pass := c.Bytes("ctx-pass", i, 11)
+		want := s2kref.Derive(sp, pass, j.kl)
+		where := map[string]any{"type": j.typ, "hash": h.alg.Name, "coded_count": j.coded, "keyLen": j.kl, "contexts": (j.kl + h.alg.Len - 1) / h.alg.Len}
+		_, got := dest(j.kl)
+		_, got2 := dest(j.kl)
+		if p, v, st := vf.Protect(func() {
+			f, err := s2k.Parse(bytes.NewReader(sp.Encode()))
+			if err != nil {
+				panic(err)
+			}
+			f(got, pass)
+			hh := h.real.New()
+			hh.Write([]byte{1, 2, 3})
+			switch j.typ {
+			case s2kref.Simple:
+				s2k.Simple(got2, hh, pass)
+			case s2kref.Salted:
+				s2k.Salted(got2, hh, pass, sp.Salt[:])
+			default:
+				s2k.Iterated(got2, hh, pass, sp.Salt[:], s2kref.Count(byte(j.coded)))
+			}
+		}); p {
+			c.Violation("derivation panics for a key of many hash contexts", map[string]any{"at": where, "panic": fmt.Sprint(v), "stack": st})
+			return
+		}
+		c.Eval(2)
+		if !bytes.Equal(got, want) {
+			c.Violation(fmt.Sprintf("Parse+derive != RFC 4880 key (type %d, more than 3 contexts / key length around 256)", j.typ), where)
+		}
+		if !bytes.Equal(got2, want) {
+			c.Violation(fmt.Sprintf("direct function != RFC 4880 key (type %d, more than 3 contexts / key length around 256)", j.typ), where)
+		}
+		c.Nontrivial(fmt.Sprintf("ctx/%d/%s/%d/%d", j.typ, h.alg.Name, j.coded, j.kl))
+	})
+}
+
+// interleavedFunctions (A/D): two specifiers are parsed one after the other (every ordered pair of
+// type x hash, different salts and counts), the packet buffers are wiped, and the two returned
+// functions are used alternately A, B, A with different key lengths: each must keep deriving the key
+// of its OWN specifier.
+func interleavedFunctions(c *vf.Ctx) {
+	type side struct {
+		hi    int
+		typ   byte
+		coded int
+	}
+	var sides []side
+	for hi := range hashes {
+		sides = append(sides, side{hi, s2kref.Simple, 0}, side{hi, s2kref.Salted, 0}, side{hi, s2kref.Iterated, 3 + hi})
+	}
+	n := len(sides)
+	c.ParallelFor(n*n, func(idx int) {
+		a, b := sides[idx/n], sides[idx%n]
+		spA := specFor(c, item{hi: a.hi, typ: a.typ, coded: a.coded})
+		spB := specFor(c, item{hi: b.hi, typ: b.typ, coded: b.coded + 1})
+		spB.Salt[0] ^= 0x80
+		passA, passB := c.Bytes("il-pass-a", idx, 9), c.Bytes("il-pass-b", idx, 14)
+		LA, LB := hashes[a.hi].alg.Len, hashes[b.hi].alg.Len
+		where := map[string]any{"A": fmt.Sprintf("%x", spA.Encode()), "B": fmt.Sprintf("%x", spB.Encode())}
+		var bad string
+		if p, v, st := vf.Protect(func() {
+			bufA, bufB := spA.Encode(), spB.Encode()
+			fA, errA := s2k.Parse(bytes.NewReader(bufA))
+			fB, errB := s2k.Parse(bytes.NewReader(bufB))
+			if errA != nil || errB != nil {
+				bad = "Parse rejects a valid specifier"
+				return
+			}
+			wipe(bufA)
+			wipe(bufB)
+			for step, x := range []struct {
+				f    func(out, in []byte)
+				sp   s2kref.Spec
+				pass []byte
+				kl   int
+				who  string
+			}{{fA, spA, passA, LA + 1, "A"}, {fB, spB, passB, 2*LB + 1, "B"}, {fA, spA, passA, 2 * LA, "A"}, {fB, spB, passB, 1, "B"}} {
+				_, got := dest(x.kl)
+				x.f(got, x.pass)
+				if !bytes.Equal(got, s2kref.Derive(x.sp, x.pass, x.kl)) {
+					bad = fmt.Sprintf("step %d: function %s does not derive the key of its own specifier", step, x.who)
+					return
+				}
+			}
+		}); p {
+			c.Violation("derivation panics with two parsed functions in use", map[string]any{"at": where, "panic": fmt.Sprint(v), "stack": st})
+			return
+		}
+		c.Eval(4)
+		if bad != "" {
+			where["what"] = bad
+			c.Violation("functions returned by two Parse calls disturb each other", where)
+		}
+		c.Nontrivial(fmt.Sprintf("il/%d", idx))
+	})
 }
